@@ -98,6 +98,7 @@ type hist struct {
 	slow     int
 	seg      bool
 	to0      bool
+	abortAt  int    // raw: 1 + index of the request after sending which the client closes the connection without reading (0: none)
 	cbPanic  int    // nbc: 1 + index of the request whose callback panics when it is invoked (0: none)
 	dialFail int    // nbc/nbcli: the first dialFail dial attempts of the client fail ...
 	dialKind string // ... with a refusal (a port nobody listens on) or a dial timeout
@@ -364,6 +365,10 @@ func genHist(g *lp.Gen, cid int, thorough bool) {
 		genNbx(g, cid)
 		return
 	}
+	if g.Chance(1, 12) {
+		genAbort(g, cid)
+		return
+	}
 	n := 1 + g.Intn(8)
 	if g.Chance(1, 4) {
 		n = 1 + g.Intn(3)
@@ -486,6 +491,23 @@ func genNbx(g *lp.Gen, cid int) {
 		}
 		emitQ(g, cid, r)
 		rid++
+	}
+}
+
+// genAbort: k exchanges, then a request whose answer the client does not wait for (it closes the connection at once)
+func genAbort(g *lp.Gen, cid int) {
+	k := g.Intn(3)
+	g.P("K %d raw sched=psfw slow=0 seg=0 to0=0 abort=%d", cid, k+1)
+	for i := 0; i <= k; i++ {
+		r := &reqSpec{rid: i, v: "11", method: g.Pick("GET", "GET", "POST"), st: 200, sz: g.PickInt(0, 40, 900, 5000, 66000, 70000), fr: g.Pick("cl", "au", "ch"), w: 1 + g.Intn(3), sync: true}
+		if r.method == "POST" {
+			r.rb = g.PickInt(0, 300, 5000)
+		}
+		if i == k {
+			r.d = 4 + g.Intn(8)
+			r.fl = g.Chance(1, 4) && r.sz > 0
+		}
+		emitQ(g, cid, r)
 	}
 }
 
@@ -1035,7 +1057,60 @@ func isTimeout(err error) bool {
 	return errors.As(err, &ne) && ne.Timeout()
 }
 
+// runRawAbort: a client that gives up.  The requests in front of the aborted one are exchanged one at a time; then the
+// client sends the last request — whose handler takes a few milliseconds — and closes the connection at once, so the
+// server finds the connection gone when it writes the answer (the "writing the response failed" branch of
+// flushResponse).  Nothing can be observed on this connection afterwards; what such a failure does to the server's
+// pooled objects shows on the connections that run concurrently in the same case.
+func (s *server) runRawAbort(h *hist) {
+	conn, err := s.dialRaw()
+	if err != nil {
+		h.fail(true, "c10-order", "dial failed: %v", err)
+		return
+	}
+	tee := &teeConn{Conn: conn}
+	defer conn.Close()
+	br := bufio.NewReaderSize(tee, 16384)
+	k := h.abortAt - 1
+	for i, r := range h.reqs {
+		res := h.res[r.rid]
+		res.closed = "0"
+		_ = conn.SetDeadline(time.Now().Add(ioTimeout))
+		if _, err := conn.Write(s.rawRequest(h.cid, r)); err != nil {
+			h.fail(true, "c10-order", "write of request %d failed: %v", r.rid, err)
+			return
+		}
+		if i >= k {
+			_ = conn.Close()
+			break
+		}
+		resp, err := http.ReadResponse(br, &http.Request{Method: r.method})
+		if err != nil {
+			h.fail(isTimeout(err), "c10-order", "no response to request %d: %v", r.rid, err)
+			return
+		}
+		body, err := io.ReadAll(resp.Body)
+		_ = resp.Body.Close()
+		if err != nil {
+			h.fail(isTimeout(err), "c10-order", "response to request %d broke off: %v", r.rid, err)
+			return
+		}
+		h.checkResponse(r, resp.StatusCode, resp.Header, body, res)
+		if resp.StatusCode != r.st {
+			h.fail(false, "c10-order", "response to request %d has status %d, handler set %d", r.rid, resp.StatusCode, r.st)
+		}
+	}
+	time.Sleep(time.Duration(h.reqs[len(h.reqs)-1].d+3) * time.Millisecond) // let the server run into the closed connection
+	tee.mu.Lock()
+	h.scanForeign(tee.buf.Bytes())
+	tee.mu.Unlock()
+}
+
 func (s *server) runRaw(h *hist) {
+	if h.abortAt > 0 {
+		s.runRawAbort(h)
+		return
+	}
 	conn, err := s.dialRaw()
 	if err != nil {
 		h.fail(true, "c10-order", "dial failed: %v", err)
@@ -1771,7 +1846,7 @@ func parseCase(lines []string) (*caseT, error) {
 				return nil, fmt.Errorf("bad K line")
 			}
 			cid, _ := strconv.Atoi(f[1])
-			h := &hist{cid: cid, kind: f[2], slow: kvi(f, "slow"), seg: kv(f, "seg") == "1", to0: kv(f, "to0") == "1", failAt: kvi(f, "fail"), dialFail: kvi(f, "dialfail"), dialKind: kv(f, "dialkind"), cbPanic: kvi(f, "cbpanic"), res: map[int]*result{}}
+			h := &hist{cid: cid, kind: f[2], slow: kvi(f, "slow"), seg: kv(f, "seg") == "1", to0: kv(f, "to0") == "1", failAt: kvi(f, "fail"), dialFail: kvi(f, "dialfail"), dialKind: kv(f, "dialkind"), cbPanic: kvi(f, "cbpanic"), abortAt: kvi(f, "abort"), res: map[int]*result{}}
 			switch h.kind {
 			case "raw", "std", "nbc", "nbcli", "nbx":
 			default:
@@ -1800,7 +1875,7 @@ func parseCase(lines []string) (*caseT, error) {
 // freshHist: a copy of the static part of h with empty results — every attempt runs on its own copy, so a client
 // call that never returns (and the goroutine stuck in it) cannot touch what a later attempt or the printer reads
 func freshHist(h *hist, cliEpoll string) *hist {
-	cl := &hist{cid: h.cid, kind: h.kind, slow: h.slow, seg: h.seg, to0: h.to0, dialFail: h.dialFail, dialKind: h.dialKind, cbPanic: h.cbPanic,
+	cl := &hist{cid: h.cid, kind: h.kind, slow: h.slow, seg: h.seg, to0: h.to0, dialFail: h.dialFail, dialKind: h.dialKind, cbPanic: h.cbPanic, abortAt: h.abortAt,
 		failAt: h.failAt, reqs: h.reqs, res: map[int]*result{}, cut: -1, cliEpoll: cliEpoll}
 	for _, r := range h.reqs {
 		cl.res[r.rid] = &result{cb: -1}
